@@ -1660,6 +1660,64 @@ func runC01(c *Ctx) {
 			return cal != nil && cal.Name() == "Evaluate" && cal.Pkg != nil && cal.Pkg.Pkg.Path() == pBase
 		}, 6, "an operand must be the value its atom read, unchanged")
 	}
+	// ... and what an arithmetic node yields is the result of the operator table (core.Add / Sub / Mul / Div,
+	// which decide by kind what is well typed) or the value of its only child: nothing the node worked out
+	// itself -- "a string plus anything is the concatenation of their printed forms" never reaches E2
+	if f := c.MustFn("E7-operand-as-read", "internal/base", "MathExpression", "Evaluate"); f != nil {
+		x := c.Index(f)
+		isOp := func(v ssa.Value) bool {
+			ex, ok := x.Origin(v).(*ssa.Extract)
+			if !ok || ex.Index != 0 {
+				return false
+			}
+			call, ok := ex.Tuple.(*ssa.Call)
+			if !ok {
+				return false
+			}
+			cal := call.Call.StaticCallee()
+			if cal == nil || cal.Pkg == nil || cal.Pkg.Pkg.Path() != pCore {
+				return false
+			}
+			switch cal.Name() {
+			case "Add", "Sub", "Mul", "Div":
+				return true
+			}
+			return false
+		}
+		bad, badPos, n := "", f.Pos(), 0
+		eachInstr(f, func(in ssa.Instruction) {
+			r, isRet := in.(*ssa.Return)
+			if !isRet || len(r.Results) != 2 || bad != "" {
+				return
+			}
+			for _, pv := range x.ValuesAt(r.Results[0], r) {
+				if pv.V == nil {
+					continue
+				}
+				o := x.Origin(pv.V)
+				if ex, isEx := o.(*ssa.Extract); isEx && ex.Index == 0 {
+					if call, isCall := ex.Tuple.(*ssa.Call); isCall {
+						if cal := call.Call.StaticCallee(); cal != nil && cal.Name() == "Evaluate" && cal.Pkg != nil && cal.Pkg.Pkg.Path() == pBase {
+							n++
+							continue // the value of the only child
+						}
+					}
+				}
+				if call, isCall := o.(*ssa.Call); isCall && fnIs(call.Call.StaticCallee(), "reflect", "", "ValueOf") {
+					arg := x.Unwrap(call.Call.Args[0])
+					if cc, isC := arg.(*ssa.Const); isC && cc.Value == nil {
+						continue // no value, with an error
+					}
+					if isOp(arg) {
+						n++
+						continue
+					}
+				}
+				bad, badPos = x.Describe(o), r.Pos()
+			}
+		})
+		c.Check("E7-operand-as-read", "MathExpression.Evaluate#value-from-the-operator-table", bad == "" && n >= 6, badPos, "an arithmetic node must yield the result of core.Add / Sub / Mul / Div or the value of its only child (%d such returns found): %s", n, orStr(bad, "ok"))
+	}
 	// G3: the tree that is evaluated is the tree that was parsed: the node a handler of the expression
 	// level takes off the listener's stack is handed to its parent on every path (the attach rule of
 	// C02-S9 / C10-K6 for these handlers) -- a handler that hands on the child of a bracketed expression
